@@ -17,8 +17,8 @@ the real container), and the order `0..n` of `vertex_ids()`.
 Vectors used as stacks (`container`, `component`) are lists with the head = the element pushed last.
 The recursion of `depth_first_search` is a fuelled structural recursion (`fuel` bounds the recursion
 *depth*); exhausting the fuel is the explicit outcome `Err.diverges`, and `Proofs/Scc.lean` shows that the
-fuel supplied by `allScc` is enough on every well-formed graph.  A real stack overflow on deep recursion
-is outside the model.
+fuel supplied by `allScc` is enough on every `Graph` value whatsoever (`allScc_ne_diverges`).  A real stack
+overflow on deep recursion is outside the model.
 
 No imports: this file is linked into the driver executable.
 -/
@@ -27,7 +27,7 @@ namespace Scc
 
 inductive Err
   | edgeNotFound   -- `NetworkError::EdgeNotFound` from `get_edge`
-  | diverges       -- fuel exhausted (never on a well-formed graph: `Proofs/Scc.lean`)
+  | diverges       -- fuel exhausted (proved unreachable: `allScc_ne_diverges` in `Proofs/Scc.lean`)
   deriving DecidableEq, Repr
 
 structure Graph where
